@@ -230,7 +230,7 @@ var renderStrings = []string{"a", "bc", "x y", "", "Ã©", " pad ", "a\tb", "æ—¥æœ
 	" ", "a  b", "\tq", "z ", "Ã¤ Ã¶", "naÃ¯ve cafÃ©", "aÂ b", "xã€€y", "l1\nl2", "ğ›‘rÂ²", "AND", "(p)", "a,b", "1",
 	"ou=People\\", "a\\ b", "\\", "x\\\\", "t\\\tu", "q\\  r", "\"q\"", "'s'", "<v>", "[w]", "((p))", "\"", "<<x>>"}
 
-var renderSyms = []string{"", "", "&", "||", "Ã©", "|", "!"}
+var renderSyms = []string{"", "", "&", "||", "Ã©", "|", "!", "xor", "Nand", "ALSO", "Ã¼nd"}
 var renderDelims = []string{"", "", ",", " ", ";;", ", "}
 
 // the last two are stored but have no effect: a pair of empty strings, and a
